@@ -39,6 +39,7 @@ def wfCls (c : Cls) : Bool :=
   (match c.api with
    | .plain =>
      c.eq == .unset && c.cmp == .unset && c.hash == .unset && c.unsafeHash == .unset && c.init == .unset &&
+     c.getstateSetstate == .unset &&
      c.frozen == .unset && c.slots == .unset && c.autoDetect == .unset && c.autoExc == .unset &&
      c.cacheHash == .unset && c.fields == [] && !c.ownInit
    | .attrS => true
@@ -57,24 +58,18 @@ def usesInstances (c : Case) : Bool := !c.insts.isEmpty || !c.ops.isEmpty
 def valsOk (c : Case) (n : Nat) (vs : List Nat) : Bool :=
   vs.length == n && vs.all (· < c.eqc.length)
 
-/-- indices in range, values in the domain, copies only on uniformly slotted / uniformly dict chains, and
+/-- indices in range, values in the domain, copies only where `copyOk` (see `wf`), and
     no field write after the first hash of the same instance -/
-def wfOps (c : Case) (nF : Nat) (uniform : Bool) : Nat → List Nat → List Op → Bool
+def wfOps (c : Case) (nF : Nat) (copyOk : Bool) : Nat → List Nat → List Op → Bool
   | _, _, [] => true
-  | n, hashed, .hash i alt :: rest => i < n && valsOk c nF alt && wfOps c nF uniform n (i :: hashed) rest
-  | n, hashed, .copy i :: rest => i < n && uniform && wfOps c nF uniform (n + 1) hashed rest
-  | n, hashed, .deepcopy i :: rest => i < n && uniform && wfOps c nF uniform (n + 1) hashed rest
-  | n, hashed, .pickle i :: rest => i < n && uniform && wfOps c nF uniform (n + 1) hashed rest
+  | n, hashed, .hash i alt :: rest => i < n && valsOk c nF alt && wfOps c nF copyOk n (i :: hashed) rest
+  | n, hashed, .copy i :: rest => i < n && copyOk && wfOps c nF copyOk (n + 1) hashed rest
+  | n, hashed, .deepcopy i :: rest => i < n && copyOk && wfOps c nF copyOk (n + 1) hashed rest
+  | n, hashed, .pickle i :: rest => i < n && copyOk && wfOps c nF copyOk (n + 1) hashed rest
   | n, hashed, .evolve i ch :: rest =>
-    i < n && ch.all (fun fv => fv.1 < nF && fv.2 < c.eqc.length) && wfOps c nF uniform (n + 1) hashed rest
+    i < n && ch.all (fun fv => fv.1 < nF && fv.2 < c.eqc.length) && wfOps c nF copyOk (n + 1) hashed rest
   | n, hashed, .set i f v :: rest =>
-    i < n && f < nF && v < c.eqc.length && !hashed.contains i && wfOps c nF uniform n hashed rest
-
-/-- by-MRO collection: an own field of a slotted class is attributed to the plain class right above it -/
-def plainAboveSlotted : List Node → Bool
-  | x :: y :: rest =>
-    (!x.isAttrs && y.isAttrs && y.facts.slotsEff && !y.cls.fields.isEmpty) || plainAboveSlotted (y :: rest)
-  | _ => false
+    i < n && f < nF && v < c.eqc.length && !hashed.contains i && wfOps c nF copyOk n hashed rest
 
 /-- K3 of C01/C08/C10 (not this property's business): the class whose `__init__` runs is a frozen dict
     class and `base_attr_map` names, for a field that is a slot of some base, a class without
@@ -84,13 +79,13 @@ def k3shape (lf : List Node) : Bool :=
   | [] => false
   | m :: below =>
     m.facts.frozenEff && !m.facts.slotsEff &&
-    (if m.cls.api == .attrS then
-       -- legacy collection attributes every inherited field to the direct base
-       (match below with
-        | [] => false
-        | p :: _ => !(p.isAttrs && p.facts.slotsEff) &&
-                    below.any (fun n => n.isAttrs && n.facts.slotsEff && !n.cls.fields.isEmpty))
-     else plainAboveSlotted below)
+    -- attr.s's legacy collection attributes every inherited field to the direct base; collection by
+    -- MRO (define / frozen) attributes each field to the class that owns it and is never wrong here
+    m.cls.api == .attrS &&
+      (match below with
+       | [] => false
+       | p :: _ => !(p.isAttrs && p.facts.slotsEff) &&
+                   below.any (fun n => n.isAttrs && n.facts.slotsEff && !n.cls.fields.isEmpty))
 
 def wf (c : Case) : Bool :=
   let ns := nodesWith docOutcome c
@@ -100,10 +95,12 @@ def wf (c : Case) : Bool :=
   c.keyMap.length == c.eqc.length && c.hcode.length == c.eqc.length &&
   c.eqc.all (· < c.eqc.length) && c.keyMap.all (· < c.eqc.length) &&
   (!usesInstances c ||
-    (!c.excBase && !k3shape ns.reverse &&
+    (!k3shape ns.reverse &&
      c.chain.all (fun k => k.api == .plain || (!k.ownInit && (facts k false false).initOn)) &&
      c.insts.all (valsOk c L.nFields) &&
-     wfOps c L.nFields L.uniform.isSome c.insts.length [] c.ops))
+     -- copies: not of exception instances (BaseException has its own reduce protocol) and not where the
+     -- state methods that resolve belong to a base or are switched off on a slotted class (C10)
+     wfOps c L.nFields (L.copyMode != .unsupported && !c.excBase) c.insts.length [] c.ops))
 
 /-! ## Known deviations of the pinned tree -/
 
